@@ -59,7 +59,8 @@ Record HBInv (c : config) (s : state) : Prop := {
   HB_held : forall t i, cs s t = CHolding i -> hb s i <> HNone;
   HB_proc : forall t i q, cs s t = CHolding i -> hb_proc (hb s i) = Some q -> q = cproc s t;
   HB_time : forall i cr u, content s i = FMeta cr (Some u) -> u <= now s;
-  HB_tids : forall t, cs s t <> CIdle -> In t (tids s)
+  HB_tids : forall t, cs s t <> CIdle -> In t (tids s);
+  HB_nogarbage : forall i, content s i <> FGarbage     (* runs from [init]: nobody writes garbage *)
 }.
 
 Definition good_cfg (c : config) : Prop :=
@@ -317,6 +318,13 @@ Proof.
     all: try (destruct (Nat.eq_dec t' t) as [->|Hne]; [apply Hti; congruence | rewrite upd_neq in H' by assumption; apply Hti; exact H']).
     + destruct (Nat.eq_dec t' t) as [->|Hne]; [left; reflexivity | right; rewrite upd_neq in H' by assumption; apply Hti; exact H'].
     + apply Hti. intros E. apply H'. unfold kill_cs. rewrite E. reflexivity.
+  - (* HB_nogarbage *)
+    pose proof (HB_nogarbage c s HI) as Hng.
+    inv_step Hstep; cbn [content set_cs]; intros i' H'; try (eapply Hng; eassumption).
+    all: match type of H' with
+         | upd _ ?k _ _ = _ => destruct (Nat.eq_dec i' k) as [->|Hne];
+                               [rewrite upd_eq in H'; discriminate | rewrite upd_neq in H' by assumption; eapply Hng; eassumption]
+         end.
 Qed.
 
 Lemma HBInv_reach ok s : reach c ok init s -> HBInv c s.
@@ -503,7 +511,7 @@ Proof.
           destruct Hcfg as (Hint & Hdel & Hfac & Heps). unfold gapb in Hg. lia. }
         rewrite Hyoung, orb_true_r in Hstep. injection Hstep as <-. apply Hgen; intros; discriminate.
       * rewrite (Hns i cr u HB HM Ef Ect) in Hstep. injection Hstep as <-. apply Hgen; intros; discriminate.
-      * injection Hstep as <-. apply Hgen; intros; discriminate.
+      * destruct (HB_nogarbage c s HB i Ect).
     + injection Hstep as <-. apply Hgen; intros; discriminate.
   - (* remove *)
     cbn [step] in Hstep. destruct (cs s t) eqn:Ecs; try discriminate. destruct (Mn t ec Ecs).
@@ -672,7 +680,7 @@ Proof.
   destruct (cs s t) eqn:E; auto; cbn [step]; rewrite E.
   - destruct (file s); eauto.
   - intros H. apply Z.ltb_lt in H. rewrite H. eauto.
-  - destruct (file s) as [i|]; [|eauto]. destruct (content s i); [match goal with |- context [if ?b then _ else _] => destruct b end | destruct (is_stale c (now s) created updated) |]; eauto.
+  - destruct (file s) as [i|]; [|eauto]. destruct (content s i); [match goal with |- context [if ?b then _ else _] => destruct b end | destruct (is_stale c (now s) created updated) | destruct (undec c); [match goal with |- context [if ?b then _ else _] => destruct b end|]]; eauto.
   - eauto.
 Qed.
 
@@ -782,7 +790,7 @@ Proof.
               (forall p cr due, hb (set_cs s t x) i <> HSleep p cr due) /\ (forall p cr j fcr sn, hb (set_cs s t x) i <> HTrunc p cr j fcr sn)).
     { intros x Hx. cbn. split; [reflexivity|]. split; [assumption|]. split; [|auto].
       intros t' e. destruct (Nat.eq_dec t' t) as [->|Hne]; [rewrite upd_eq; apply Hx | rewrite upd_neq by assumption; apply Hnc]. }
-    rewrite Hf in Hs. destruct (content s i); [match type of Hs with context [if ?b then _ else _] => destruct b end | destruct (is_stale c (now s) created updated) |];
+    rewrite Hf in Hs. destruct (content s i); [match type of Hs with context [if ?b then _ else _] => destruct b end | destruct (is_stale c (now s) created updated) | destruct (undec c); [match type of Hs with context [if ?b then _ else _] => destruct b end|]];
       injection Hs as <-; apply Hgen; intros; discriminate.
   - destruct (cs s t) eqn:Ecs; try discriminate. injection Hs as <-. cbn in Hf'. discriminate.
   - destruct (cs s t) eqn:Ecs; try discriminate. destruct (until <=? now s); [|discriminate]. injection Hs as <-.
